@@ -35,6 +35,17 @@ TMP = os.path.join(lib.SCRATCH, "tmp_c17")
 # io.FileIO, every write() goes straight to the descriptor)
 DESTS = {False: ("mem", "file", "wfile", "linefile"), True: ("mem", "file", "wfile", "rawfile")}
 
+# volume: (number of elements, total characters/bytes the elements read or write together). The small enumeration moves a few
+# bytes per element; these files are as large as, one more than, and several times the sizes at which the I/O layers under the
+# framework change how they work (a memory page / allocation unit of 4 KiB, io.DEFAULT_BUFFER_SIZE of 8 KiB, 64 KiB), both as one
+# large record and as many records; one more (n, total) per arrangement is drawn from the seeded PRNG
+VOLUMES = [(1, 4097), (8, 4096), (8, 4097), (3, 8193), (5, 20000), (8, 70000)]
+
+
+def volume_of(case):
+    """characters/bytes the non-failing elements of the case read or write together"""
+    return sum((b[1] if case["read"] else len(b[1])) for b in case["behs"] if not b[0])
+
 
 def open_dest(kind, binary):
     """the caller's own destination object of the given kind"""
@@ -140,7 +151,11 @@ class CHECK(Check):
     rule = ("complete enumeration: files of n = 1..8 elements (quick: n in {1,2,3,5,8}) x fault position k in 0..n-1 or no fault x "
             "{read, write} x file family {register, block, section} x endpoint {path in a real temp directory, caller buffer / "
             "in-memory content} x (writes to a caller buffer) kind of caller-owned destination {StringIO/BytesIO, file object opened "
-            "read-write, opened write-only, write-only and line-buffered (text) / unbuffered raw FileIO (binary)} x storage {text, binary} x exception object {ValueError, KeyError, custom Exception subclass} x {built with a message, built without arguments}. "
+            "read-write, opened write-only, write-only and line-buffered (text) / unbuffered raw FileIO (binary)} x storage {text, binary} x exception object {ValueError, KeyError, custom Exception subclass} x {built with a message, built without arguments}; "
+            "plus, per arrangement {family, storage, read/write, endpoint (and kind of caller destination)}, files with kilobytes of "
+            "content - (elements, total size) in {(1, 4097), (8, 4096), (8, 4097), (3, 8193), (5, 20000), (8, 70000)} and one drawn "
+            "pair (sizes at, one past and several times a 4 KiB page, the 8 KiB io buffer, 64 KiB) - with no fault and a fault in "
+            "the first / last element (writes: up to 20 kB, the kinds of caller destination taken in rotation). "
             "builtins.open and the adapter's StringIO/BytesIO are wrapped to record every handle the framework opens and its "
             "closed flag after the call; observed: identity of the exception at the call site, handles opened/closed, "
             "buffer.closed (inside the caller's except block, on return, and again after the caller has dropped the exception and the "
@@ -175,6 +190,36 @@ class CHECK(Check):
                                             yield dict(case, dest=dest)
                                     else:
                                         yield case
+        # volume: the same arrangements with kilobytes of content (a handful per arrangement, not an enumeration): no fault, a
+        # fault in the first and in the last element
+        for fam in families.FAMILIES:
+            for binary in (False, True):
+                for is_read in (False, True):
+                    for buf in (False, True):
+                        # (the model's string arithmetic on what is written costs ~2 s per MB: writes get the sizes around the page
+                        # and the io buffer, one 20 kB file, and each case one kind of caller destination, taken in rotation)
+                        top = (4096, 8192, 16384, 65536, 131072) if is_read else (4096, 8192, 16384)
+                        vols = (VOLUMES if is_read else VOLUMES[:1] + VOLUMES[2:5]) + [(rng.choice((1, 2, 3, 5, 8)), rng.choice(top) + rng.randint(-2, 600))]
+                        turn = rng.randrange(4)
+                        for n, total in vols:
+                            sizes = [total // n] * n
+                            sizes[-1] += total - sum(sizes)
+                            for k in ([None] if n == 1 or (total > 17000 and not is_read) else [None, 0, n - 1]):
+                                et = rng.randrange(2 * len(EXC_TYPES))
+                                behs = []
+                                for i in range(n):
+                                    if i == k:
+                                        behs.append([True, et])
+                                    elif is_read:
+                                        behs.append([False, sizes[i]])
+                                    else:
+                                        behs.append([False, ("R%d" % i) + "x" * (sizes[i] - 3) + "\n"])
+                                case = {"fam": fam, "binary": binary, "read": is_read, "buffer": buf, "behs": behs}
+                                if buf and not is_read:
+                                    turn += 1
+                                    yield dict(case, dest=DESTS[binary][turn % 4])
+                                else:
+                                    yield case
 
     def impl(self, case):
         # the objects of this case are the only thing the collection in _impl has to look at (a full collection costs ~9 ms otherwise)
@@ -206,9 +251,10 @@ class CHECK(Check):
             if case["read"]:
                 # content: n records, each "R.." so that register/block dispatch selects K
                 if binary:
-                    content = b"".join((b"R" + b"y" * 9)[: b[1]] if not b[0] else b"Rzz" for b in case["behs"])
+                    content = b"".join(b"R" + b"y" * (b[1] - 1) if not b[0] else b"Rzz" for b in case["behs"])
                 else:
-                    content = "".join("R%d\n" % i for i in range(n))
+                    # one line per element, as long as the element's size says (the small enumeration: "R<i>\n")
+                    content = "".join("R%d%s\n" % (i, "y" * (0 if b[0] else max(0, b[1] - 4))) for i, b in enumerate(case["behs"]))
                 if not case["buffer"]:
                     with open(path, "wb" if binary else "w") as fh:
                         fh.write(content)
@@ -327,6 +373,9 @@ class CHECK(Check):
              "fault_at_%s" % ("none" if k is None else k): 1}
         if case["buffer"] and not case["read"]:
             d["caller_dest_" + case.get("dest", "by_parity")] = 1
+        v = volume_of(case)
+        d["volume_" + ("lt_1KiB" if v < 1024 else "1KiB_to_4KiB" if v <= 4096 else "4KiB_to_8KiB" if v <= 8192
+                       else "8KiB_to_64KiB" if v <= 65536 else "gt_64KiB")] = 1
         return d
 
     def signature(self, case, why):
@@ -340,6 +389,16 @@ class CHECK(Check):
                 if not behs[i][0]:
                     c = dict(case)
                     c["behs"] = behs[:i] + behs[i + 1:]
+                    yield c
+        # less volume: every element three quarters / one less of what it moved
+        if volume_of(case) > 64:
+            for f in (lambda m: m * 3 // 4, lambda m: m - 1):
+                c = dict(case)
+                if case["read"]:
+                    c["behs"] = [b if b[0] else [False, max(4, f(b[1]))] for b in behs]
+                else:
+                    c["behs"] = [b if b[0] else [False, b[1][:max(3, f(len(b[1])) - 1)] + "\n"] for b in behs]
+                if c["behs"] != behs:
                     yield c
 
     def neighbours(self, case, rng):
